@@ -56,9 +56,9 @@ theorem addUnchecked_spec {l : Labels} (hwf : WF l) {pc : Nat} (hpc : pc ≤ l.c
   cases hg : l.get pc with
   | some id => exact ⟨id, l, rfl, hwf, Le.refl l, hg, by omega⟩
   | none =>
-    have hne : ¬ l.count = 65535 := by omega
+    have hm : l.count % 65536 = l.count := Nat.mod_eq_of_lt (by omega)
     have hsz : pc < l.tbl.size := by have := hwf.size; omega
-    simp only [hne, if_false]
+    simp only [hm]
     refine ⟨l.count, _, rfl, ?_, ?_, ?_, by simp⟩
     · refine ⟨by simp [hwf.size], ?_, ?_⟩
       · intro q id h
